@@ -350,7 +350,7 @@ CHECKS["C16"] = dict(
 )
 
 CHECKS["C07"] = dict(
-    category="proof", design_ref="DESIGN.md §6 C07", engine="apply + cluster",
+    category="proof", design_ref="DESIGN.md §6 C07", engine="apply + rendezvous + multi + cluster",
     technique="Lean 4 theorems on the apply pipeline (exactly-once, in-order delivery for every overlap of Ready batches) and on the abstract protocol "
               "(commit order respects real time) + differential correspondence of the real entriesToApply/publishEntries + END-TO-END EXPLORATION on real node "
               "processes (concurrent clients, SIGKILL/restart/membership faults, network partitions between live nodes through forwarders owned by the harness, "
@@ -367,7 +367,13 @@ CHECKS["C07"] = dict(
          "(C07Multi.cinv_step); for every reachable state, any N, any schedule, one deterministic state machine: C07Multi.applied_agree, own_reply_cluster (every reply at ANY "
          "node is the reply of the client's own command at its position of the one shared log), real_time_cross_node, C07_linearizable_partial (combined history of all clients of "
          "all nodes linearizable, witness = log order; partial: UniqueIds + AppendOnce are guards, fixed membership, no loss of a node's applied state, model level), "
-         "same_prefix_same_keyspace_partial (per-node environments, Deterministic commands). TIED to the code by running random overlapping batches (incl. gaps, which must be refused) "
+         "same_prefix_same_keyspace_partial (per-node environments, Deterministic commands); the composition is TIED by the `multi` engine: 2-3 REAL Manager instances in one "
+         "process (own keyspace, callback map, HandleCluster connections, handleClusterCommits loop) share ONE log owned by the harness - proposals appended reordered across "
+         "nodes and delayed, every node handed its committed entries independently (random batches, a laggard catching up late) - replayed on Multi.next with Exec.exec as each "
+         "node's state machine: the uuid proposal ids are pairwise distinct cluster-wide (UniqueIds is a CHECKED fact of every run), every reply is byte for byte the reply of the "
+         "connection's own command at its own position of the shared log and arrives only after its node applied that entry, every node's keyspace dump equals the model's replica "
+         "at that node's applied prefix (a repository mutated to use a per-Manager counter as proposal id fails the check with a replay in which a client receives the reply of "
+         "another node's command). TIED to the code by running random overlapping batches (incl. gaps, which must be refused) "
          "through the real entriesToApply/publishEntries against Apply.publish, and by extracting the order of the Ready arm (fact F4, incl. F4d: the persist step is "
          "unconditional); the BEHAVIOURAL form of F4 - votes answered / appends acknowledged / entries applied only when a restart would find them on disk, no double vote in a "
          "term across restarts, on the real Ready loop of one node - is C08's suite readyloop (harness/readyloop.go, vlib/readygen.py), run by `check C08`. "
